@@ -15,6 +15,10 @@ DEEP = [
     ('schedule', 'deactivate', 'schedule', 'complete'),
     ('creating', 'schedule', 'unschedule', 'cancel_group'),
     ('schedule', 'complete', 'complete', 'schedule'),       # duplicate completion, then the child
+    ('creating', 'u2_create', 'u2_jobs', 'u2_commit'),      # update committed while a parent is Creating
+    ('schedule', 'u2_create', 'u2_jobs', 'u2_commit'),      # ... while a parent is Running
+    ('schedule', 'u2_create', 'u2_jobs', 'complete', 'u2_commit'),
+    ('schedule', 'complete', 'u2_create', 'u2_jobs', 'u2_commit'),   # parent already terminal (failed or succeeded)
 ]
 KNOWN = 'uncommitted-child-readied-by-parent-completion'
 
@@ -48,6 +52,12 @@ def standard_run(R, pid, asserts, default_class, deep=DEEP, quick_alphabet=CORE,
     run_bmc_property(R, pid, sizes, n1=sizes.J - 1, g1=sizes.G - 1, alphabet=quick_alphabet if quick else thorough_alphabet,
                      depth=2, asserts=asserts, classify=classify, extra_seqs=deep, commit=commit,
                      workers=int(os.environ.get('VERIF_WORKERS', '12')))
+    if quick and 'schedule' in quick_alphabet:
+        # second pass: the same alphabet from a prefix in which one job has already been scheduled (so that reports
+        # about an existing attempt — duplicate, stale, late — are within depth 2)
+        run_bmc_property(R, pid, sizes, n1=sizes.J - 1, g1=sizes.G - 1, alphabet=[a for a in quick_alphabet if not a.startswith('u2_')],
+                         depth=2, asserts=asserts, classify=classify, extra_seqs=(), commit=commit, prefix_ops=('schedule',),
+                         workers=int(os.environ.get('VERIF_WORKERS', '12')))
     if not quick:
         # second pass: every sequence of THREE operation kinds over the core alphabet on the smaller world
         small = model.Sizes(J=3, G=2, U=2, I=1, A=2, T=2, IC=1)
